@@ -345,6 +345,9 @@ ctx_sig(const struct ly_ctx *ctx, unsigned *count)
         h = fnvs(h, m->revision);
         h = fnv(h, m->implemented ? "I" : "i", 1);
         h = fnv(h, (m->latest_revision & 1) ? "L" : "l", 1);
+        /* what a user sees of the flag: the latest-revision lookup by name answers this module or another one */
+        h = fnv(h, (ly_ctx_get_module_latest(ctx, m->name) == m) ? "Q" : "q", 1);
+        h = fnv(h, (ly_ctx_get_module_latest_ns(ctx, m->ns) == m) ? "N" : "n", 1);
         h = fnv(h, m->compiled ? "C" : "c", 1);
         f = NULL;
         fi = 0;
